@@ -161,6 +161,8 @@ def readback(call, result, coords, allowed, be):
         return ("skipped", "")
     except einx.errors.EinxError:
         return ("skipped", "")
+    except Exception as e:  # noqa
+        return ("DISAGREE", f"get_at({desc2!r}) on the result of set_at({call.desc!r}) raised {type(e).__name__}: {str(e)[:100]}")
     if np.asarray(g).shape != gref.shape or not np.array_equal(g, gref):
         return ("DISAGREE", f"get_at({desc2!r}) on the result of set_at({call.desc!r}) with coords={[c.tolist() for c in coords]} returned {np.asarray(g).tolist()}, "
                             f"explicit indexing gives {gref.tolist()}")
